@@ -148,6 +148,7 @@ def run(ctx):
         if wf:
             dist["well_formed"] += 1
             exp = expected_json(m, p)
+            meta["wf"], meta["exp"] = True, exp
             if isinstance(got, Exception) or got != exp:
                 ctx.violation("oracle", "the mapping read from the text is not the mapping that was written",
                               dict(meta, api="read_style_mapping", observed=repr(got)[:400], expected=exp), True)
@@ -161,6 +162,33 @@ def run(ctx):
         terms.append("(%s, %s, %s, %s, %s, %s, %s)" % (a_matcher(m), a_path(p), T.s(w1), T.s(w2), T.lst(lambda ab: "(%s, %s)" % (T.s(ab[0]), T.s(ab[1])), seps),
                                                   T.s(text.strip()) if text.strip() == text else T.s(text), obs if text.strip() == text else obs))
         metas.append(meta)
+    # the same mappings through the public option: several per style map, indented, between blank lines and # comment lines
+    from mammoth import options as moptions
+    wf_metas = [mt for mt in metas if mt.get("wf")]
+    dist["style_maps"] = 0
+    j = 0
+    while j < len(wf_metas) and len(ctx.violations) <= 10:
+        k = rng.randint(1, 6)
+        group = wf_metas[j:j + k]
+        j += k
+        lines = []
+        for mt in group:
+            while rng.random() < 0.3:
+                lines.append(rng.choice(["", "   ", "# a comment", "  # p => h1", "#p.x => p#y", "\t"]))
+            lines.append(rng.choice(["", " ", "\t", "  "]) + mt["text"].strip() + rng.choice(["", " ", "\t "]))
+        sm = "\n".join(lines)
+        try:
+            res = moptions.read_options({"style_map": sm, "include_default_style_map": False})
+            got = [T.style_json(x) for x in res.value["style_map"]]
+            msgs = [m.message for m in res.messages]
+        except Exception as e:
+            got, msgs = repr(e), []
+        ctx.count()
+        dist["style_maps"] += 1
+        exp = [mt["exp"] for mt in group]
+        if got != exp or msgs:
+            ctx.violation("oracle", "a style map of well-formed lines (with blank and comment lines between them) was not read as the list of its mappings",
+                          {"api": "options.read_options", "style_map": sm, "observed": got if isinstance(got, str) else got[:8], "expected": exp, "messages": msgs[:4]}, True)
     # cases whose printed text ends in whitespace (empty path) are compared on the stripped text by both sides
     keep = [j for j, mt in enumerate(metas) if mt["text"].strip() == mt["text"]]
     bad = ctx.coq_eval("c06", HEADER, [terms[j] for j in keep], CASE_TYPE, "chk", shard=60)
@@ -177,6 +205,16 @@ def run(ctx):
 
 def replay(ctx, rep):
     r = rep["replay"]
+    if r.get("api") == "options.read_options":
+        from mammoth import options as moptions
+        try:
+            res = moptions.read_options({"style_map": r["style_map"], "include_default_style_map": False})
+            got = [T.style_json(x) for x in res.value["style_map"]]
+            ok = got == r["expected"] and not res.messages
+        except Exception as e:
+            got, ok = repr(e), False
+        print("replay:", "property holds on this input" if ok else "violated: %r" % (got,))
+        return 0 if ok else 1
     try:
         res = read_style_mapping(r["text"].strip())
         got = None if res.value is None else T.style_json(res.value)
